@@ -31,6 +31,16 @@ from basyx.aas.examples.data._helper import AASDataChecker, DataChecker
 from .state_manager import ComplianceToolStateManager, Status
 
 
+def _naive_utc(value: datetime.datetime) -> datetime.datetime:
+    """
+    Convert a timezone-aware datetime (e.g. ``2020-01-01T00:00:00Z`` in a package's core properties) to naive UTC, so
+    that it can be subtracted from / compared with a naive one
+    """
+    if value.tzinfo is not None:
+        return value.astimezone(datetime.timezone.utc).replace(tzinfo=None)
+    return value
+
+
 def check_deserialization(file_path: str, state_manager: ComplianceToolStateManager,
                           file_info: Optional[str] = None) \
         -> Tuple[model.DictObjectStore, aasx.DictSupplementaryFileContainer, pyecma376_2.OPCCoreProperties]:
@@ -218,7 +228,7 @@ def check_aas_example(file_path: str, state_manager: ComplianceToolStateManager,
         assert isinstance(cp_new.created, datetime.datetime)
         checker2.check(isinstance(cp_new.created, datetime.datetime), "core property created must be of type datetime",
                        created=type(cp_new.created))
-        duration = cp_new.created - cp.created
+        duration = _naive_utc(cp_new.created) - _naive_utc(cp.created)
         checker2.check(duration.microseconds < 20, "created must be {}".format(cp.created), created=cp_new.created)
     except AssertionError:
         checker2.check(isinstance(cp_new.created, datetime.datetime), "core property created must be of type datetime",
@@ -233,7 +243,7 @@ def check_aas_example(file_path: str, state_manager: ComplianceToolStateManager,
         assert isinstance(cp_new.modified, datetime.datetime)
         checker2.check(isinstance(cp_new.modified, datetime.datetime), "modified bust be of type datetime",
                        modified=type(cp_new.modified))
-        duration = cp_new.modified - cp.modified
+        duration = _naive_utc(cp_new.modified) - _naive_utc(cp.modified)
         checker2.check(duration.microseconds < 20, "modified must be {}".format(cp.modified), modified=cp_new.modified)
     except AssertionError:
         checker2.check(isinstance(cp_new.modified, datetime.datetime), "modified bust be of type datetime",
@@ -318,7 +328,7 @@ def check_aasx_files_equivalence(file_path_1: str, file_path_2: str, state_manag
     state_manager.add_step('Check if core properties are equal')
     checker2 = DataChecker(raise_immediately=False)
     if isinstance(cp_1.created, datetime.datetime) and isinstance(cp_2.created, datetime.datetime):
-        duration = cp_1.created - cp_2.created
+        duration = _naive_utc(cp_1.created) - _naive_utc(cp_2.created)
         checker2.check(duration.microseconds < 20, "created must be {}".format(cp_1.created), value=cp_2.created)
     else:
         # packages without a creation date (or with a plain date) are compared by value
